@@ -66,6 +66,59 @@ def judge(rep, cases, res, findings, engines=ENGINES):
     return judged, outdom
 
 
+def _hm_engine_task(args):
+    bi, names, srcs, workdir, vm_exe = args
+    lang = _HM["lang"]
+    p = os.path.join(lang.work, "hm2_%d.nano" % bi)
+    main = "fn main() -> int {\n" + "".join('    (println "@@%s")\n    (println (%s))\n' % (n, n) for n in names) + '    (println "@@end")\n    return 0\n}\nshadow main { assert true }\n'
+    with open(p, "w") as f:
+        f.write("".join(srcs) + main)
+    out = {}
+    v = lang.vm(p)
+    n = lang.native(p)
+    for eng, r in (("vm", v), ("native", n)):
+        d = {}
+        if r.get("rc") == 0:
+            for part in r["out"].decode(errors="replace").split("@@"):
+                if "\n" in part:
+                    nm, rest = part.split("\n", 1)
+                    d[nm] = rest
+        out[eng] = (r.get("rc"), d, (r.get("err", b"") + r.get("compile_err", b""))[-600:].decode(errors="replace"))
+    return bi, out
+
+
+_HM = {}
+
+
+def hashmap_family(rep, tier, lang):
+    """HashMap<string,int> operation histories on both engines against a plain map (spec 3.4.6)"""
+    from . import c03
+    seqs = c03.hm_sequences(tier)
+    funcs = [("hm%d" % i,) + c03.hm_function("hm%d" % i, sq) + (sq,) for i, sq in enumerate(seqs)]
+    _HM["lang"] = lang
+    B = 80
+    jobs = [(bi, [f[0] for f in funcs[bi:bi + B]], [f[1] for f in funcs[bi:bi + B]], lang.work, None) for bi in range(0, len(funcs), B)]
+    byname = dict((f[0], f) for f in funcs)
+    judged = 0
+    for bi, out in common.pmap(_hm_engine_task, jobs):
+        names = jobs[bi // B][1]
+        for eng in ("vm", "native"):
+            rc, d, err = out[eng]
+            for n in names:
+                _n, src, exp, sq = byname[n]
+                judged += 1
+                rep.count("transitions")
+                desc = " ".join("%s(%s)" % o for o in sq)
+                if rc != 0 or n not in d:
+                    rep.violation("c02:hm:%s:fail" % eng, {"program.nano": src, "diag.txt": err}, "HashMap history %s: %s fails (rc %s): %s" % (desc, eng, rc, err.strip()[-160:].replace("\n", " | ")))
+                    break
+                if d[n] != exp:
+                    rep.violation("c02:hm:%s:%s" % (eng, "/".join(o[0] for o in sq)), {"program.nano": src, "expected.txt": exp, "observed.txt": d[n]},
+                                  "HashMap history %s: %s prints %r, a map gives %r" % (desc, eng, d[n][:80], exp[:80]))
+    rep.coverage["hashmap_histories_x_engines"] = judged
+    return judged // 2
+
+
 def run(tier):
     rep = common.Report("C02", tier)
     tree, lang, cases, res = lc.run_layers(tier, LAYERS, engines=ENGINES)
@@ -83,6 +136,7 @@ def run(tier):
             if rc != want or out != b"x\n":
                 rep.violation("exit:%s:%s" % (eng, name), {"program.nano": src}, "%s: %s exits %s (stdout %r), specification: %d" % (name, eng, rc, out[:40], want))
         judged += 1
+    judged += hashmap_family(rep, tier, lang)
     rep.count("states", judged)
     rep.count("traces_validated_against_impl", judged)
     rep.coverage["cases_enumerated"] = len(cases)
